@@ -44,6 +44,16 @@ def _alarm(signum, frame):
     raise WallTimeout("run exceeded %.0f s of wall clock" % RUN_WALL_LIMIT)
 
 
+class LibraryCrash(Exception):
+    """Raised by a property module when library code failed inside a child process (C16)."""
+
+
+def crash_outcome(pid, what):
+    return {"violations": [{"check": pid + ".crash", "event": -1,
+                            "msg": "the library raised %s through a call the simulation makes with valid arguments" % what}],
+            "digest": "crash", "stats": {"library_exception": 1}, "nontrivial": False, "vtime": 0.0}
+
+
 def guarded_execute(mod, plan):
     """Execute one plan; a wall-clock overrun is reported as a `<ID>.hang` violation."""
     old = signal.signal(signal.SIGALRM, _alarm)
@@ -53,6 +63,18 @@ def guarded_execute(mod, plan):
             out = mod.execute(plan)
         finally:
             signal.setitimer(signal.ITIMER_REAL, 0)
+    except LibraryCrash as e:
+        out = crash_outcome(mod.ID, str(e))
+    except Exception as exc:
+        # An exception *raised by the library* (innermost frame under the tree being checked) that escaped through a
+        # public call the simulation makes with valid arguments is reported as a violation of the property being
+        # exercised; anything raised by the harness itself stays a harness error (exit 2, no VIOLATION line).
+        tb = traceback.extract_tb(exc.__traceback__)
+        inner = tb[-1].filename if tb else ""
+        if not inner.startswith(os.path.join(os.path.abspath(REPO), "nmea2000")):
+            raise
+        out = crash_outcome(mod.ID, "%s: %s at %s:%d (%s)" % (type(exc).__name__, str(exc)[:120], os.path.basename(inner),
+                                                              tb[-1].lineno, tb[-1].name))
     except WallTimeout as e:
         out = {"violations": [{"check": mod.ID + ".hang", "event": -1,
                                "msg": "execution did not finish: %s" % e}],
